@@ -311,7 +311,9 @@ MUTANTS = [{'name': 'mints-premine-swapped-in-store', 'file': 'src/index/entry.r
 
 
 # behaviour-preserving edits (thorough tier): the rules must stay silent on every one of them
-NEUTRAL = [{'name': 'RuneId::load: bindings renamed', 'file': 'src/index/entry.rs', 'old': '  fn load((block, tx): Self::Value) -> Self {\n    Self { block, tx }\n  }', 'new': '  fn load((b, t): Self::Value) -> Self {\n    Self { block: b, tx: t }\n  }'}]
+NEUTRAL = [
+  {'name': 'commit: satpoint literal inlined', 'file': 'src/index/updater.rs', 'old': '            let satpoint = SatPoint { outpoint, offset };\n            sequence_number_to_satpoint.insert(sequence_number, &satpoint.store())?;', 'new': '            sequence_number_to_satpoint.insert(sequence_number, &SatPoint { outpoint, offset }.store())?;'},
+{'name': 'RuneId::load: bindings renamed', 'file': 'src/index/entry.rs', 'old': '  fn load((block, tx): Self::Value) -> Self {\n    Self { block, tx }\n  }', 'new': '  fn load((b, t): Self::Value) -> Self {\n    Self { block: b, tx: t }\n  }'}]
 
 
 def _r35_4(ctx):
